@@ -34,6 +34,8 @@ THEOREMS = [
     "C08_original_stale_cache_witness",
     "C08_load_refused_witness",
     "C08_reload_reverses_witness",
+    "C08_file_holds_last_cut",
+    "C08_refail_conservative",
     "C08_recovery_root_only",
     "C08_checkpoint_at_root",
 ]
@@ -41,7 +43,11 @@ RULE = (
     "real workflows of term nodes (and generic macros, nested up to 2 deep, built from a level description) in a "
     "fresh temp cwd: random DAG per level x cut = {end of a failed run: 1-2 failing leaves anywhere in the tree | "
     "right after the checkpoint save of any leaf / top-level macro} x local/ctl-executor children with random "
-    "completion schedules x optional change of an unconnected input of a leaf while 'removing the cause'; the file "
+    "completion schedules x optional change of an unconnected input of a leaf while 'removing the cause' x what a "
+    "failing function raises (two Exception classes, KeyboardInterrupt; locally, on the executor, inside macros) x a "
+    "leaf whose output only cloudpickle can serialise (the file changes suffix once it has run) x several "
+    "checkpointing nodes in one run x (flat graphs) a second failure in the resumed run with its own recovery file "
+    "and resume; the file "
     "is loaded through Node.load into a freshly built Workflow, flags cleared, fault table cleared, run again; "
     "compared with a clean run of a fresh graph and with plain composition. Non-trivial = at the cut at least one "
     "leaf had completed and at least one had not"
@@ -183,6 +189,7 @@ def reference(case):
                 memo[g] = f"f{g}(" + ",".join(args) + ")"
             else:
                 memo[g] = level(nd["inner"], args)
+                out[("args", g)] = [a for a, srcs in zip(args, spec["slots"][str(g)]) if srcs]
             out[g] = memo[g]
             return memo[g]
 
@@ -390,6 +397,17 @@ def _mk_sched(choices):
     return RootScheduler(list(choices), ident=ident)
 
 
+def _with_cp(spec, cp):
+    """the level description with the leaves in `cp` turned into nodes whose output only cloudpickle can serialise"""
+    out = dict(spec)
+    out["nodes"] = [
+        {**nd, "inner": _with_cp(nd["inner"], cp)} if nd["kind"] == "macro"
+        else ({**nd, "kind": "cterm"} if nd["gid"] in cp else nd)
+        for nd in spec["nodes"]
+    ]
+    return out
+
+
 def _build(case):
     from pyiron_workflow import Workflow
 
@@ -397,8 +415,44 @@ def _build(case):
 
     nodes_c08.SPEC_QUEUE.clear()
     wf = Workflow("w", autoload=None)
-    nodes_c08.build_level(wf, case["top"])
+    nodes_c08.build_level(wf, _with_cp(case["top"], set(case.get("cp", []))))
     return wf
+
+
+_ORIG_BOOM: list = []
+
+
+class BoomValue(ValueError):
+    """an injected failure of another ordinary exception class"""
+
+
+def _install_faults(fails, kinds):
+    """the fault table, and what a failing function raises: an ordinary exception (two classes) or an interrupt"""
+    from . import nodes
+
+    if not _ORIG_BOOM:
+        _ORIG_BOOM.append(nodes.Boom)
+    orig = _ORIG_BOOM[0]
+    kinds = {int(k): v for k, v in (kinds or {}).items()}
+
+    def factory(msg):
+        kind = kinds.get(int(msg[1:]), "exc")
+        if kind == "kbd":
+            return KeyboardInterrupt(msg)
+        if kind == "value":
+            return BoomValue(msg)
+        return orig(msg)
+
+    nodes.Boom = factory
+    for k in fails:
+        nodes.FAIL[k] = {0}
+
+
+def _restore_faults():
+    from . import nodes
+
+    if _ORIG_BOOM:
+        nodes.Boom = _ORIG_BOOM[0]
 
 
 def _apply_dirty(case, lvs, node):
@@ -450,6 +504,7 @@ def resume_from_file(case):
     from .execsim import CtlExecutor
 
     kind = case["kind"]
+    stage = case.get("stage", 2)
     nodes.reset()
     wf2 = Workflow("w", autoload=None)
     try:
@@ -472,8 +527,11 @@ def resume_from_file(case):
                 clear(ch)
 
     clear(wf2)
-    _apply_dirty(case, lvs2, node2)
-    sched2 = _mk_sched(case.get("choices2", []))
+    if stage == 2:
+        _apply_dirty(case, lvs2, node2)
+        # the cause that was removed need not be the only one: another function may raise in the resumed run
+        _install_faults(case.get("fails2", []), case.get("kinds2"))
+    sched2 = _mk_sched(case.get("choices2" if stage == 2 else "choices3", []))
     exe2 = CtlExecutor(sched2, case.get("mode", "ctl"))
     for g in case.get("exec2", []):
         node2[g].executor = exe2
@@ -482,7 +540,10 @@ def resume_from_file(case):
     def grab2():
         wiring2[root_lid] = _wiring(lvs2[-1], wf2, node2)
 
-    outcome2, ran2 = _run(wf2, sched2, grab2)
+    try:
+        outcome2, ran2 = _run(wf2, sched2, grab2)
+    finally:
+        _restore_faults()
     res_levels = {}
     for lv in lvs2:
         c = comp2[lv["lid"]]
@@ -498,6 +559,7 @@ def resume_from_file(case):
         "loaded": loaded, "loaded_root": loaded_root, "final": _snapshot(lvs2, node2), "levels": res_levels,
         "wiring2": wiring2, "outcome2": outcome2, "late2": len(sched2.jobs), "calls2": [c[0] for c in nodes.CALL_LOG],
         "out2": {g: _out_value(node2[g]) for lv in lvs2 for g in lv["own"]}, "trace2": list(sched2.trace),
+        "final_root": (bool(wf2.running), bool(wf2.failed)), "files_after": _files(),
     }
 
 
@@ -518,8 +580,7 @@ def run_impl(case):
     wf = _build(case)
     lvs, node, comp = _index(wf, case)
     root_lid = lvs[-1]["lid"]
-    for k in case.get("fails", []):
-        nodes.FAIL[k] = {0}
+    _install_faults(case.get("fails", []), case.get("kinds"))
     sched = _mk_sched(case.get("choices", []))
     exe = CtlExecutor(sched, case.get("mode", "ctl"))
     for g in case.get("exec", []):
@@ -527,13 +588,28 @@ def run_impl(case):
     wiring1 = {lv["lid"]: _wiring(lv, comp[lv["lid"]], node) for lv in lvs if lv["lid"] != root_lid}
     cut = {}
     orig_save = storage.StorageInterface.save
+    import pyiron_workflow.node as node_mod
+
+    orig_ckpt = node_mod.Node.save_checkpoint
+    trigger = []
     if kind == "checkpoint":
-        node[case["ckpt"]].checkpoint = "pickle"
+        for g in [case["ckpt"], *case.get("ckpt_more", [])]:
+            node[g].checkpoint = "pickle"
         by_gid = node
+
+        def save_checkpoint(self_, *a, **kw):
+            trigger.append(self_.label)
+            try:
+                return orig_ckpt(self_, *a, **kw)
+            finally:
+                trigger.pop()
+
+        node_mod.Node.save_checkpoint = save_checkpoint
 
         def save(self_, node=None, filename=None, **kw):  # keyword names as in the original
             orig_save(self_, node=node, filename=filename, **kw)
-            if not cut:
+            # the cut: right after the save made by the chosen node (others may have saved before)
+            if not cut and trigger and trigger[-1] == f"n{case['ckpt']}":
                 cut["files"] = _files()
                 cut["tokens"] = len(sched.trace)
                 cut["live"] = _snapshot(lvs, by_gid)
@@ -549,6 +625,8 @@ def run_impl(case):
         outcome1, _ = _run(wf, sched, grab1)
     finally:
         storage.StorageInterface.save = orig_save
+        node_mod.Node.save_checkpoint = orig_ckpt
+        _restore_faults()
     late1 = len(sched.jobs)
     if kind == "recovery":
         cut["files"] = _files()
@@ -582,11 +660,22 @@ def run_impl(case):
             wiring1[root_lid] = _wiring(lvs[-1], wf, node)
         r = {"load_err": b["load_err"], "files": cut["files"], "kind": kind, "outcome1": outcome1, "probe": probe,
              "tokens": cut["tokens"], "trace1": trace1, "trace2": [], "wiring1": wiring1, "wiring2": wiring1}
-        return {"obs": ["files " + " ".join(os.path.splitext(f)[0] for f in cut["files"]), "load-failed"],
+        return {"obs": ["files " + " ".join(cut["files"]), "load-failed"],
                 "stats": {"load_failed": 1, f"kind:{kind}": 1}, "r": r}
     loaded, loaded_root, final, res_levels = b["loaded"], b["loaded_root"], b["final"], b["levels"]
     wiring2, outcome2, late2, calls2, out2, trace2 = (b["wiring2"], b["outcome2"], b["late2"], b["calls2"], b["out2"],
                                                       b["trace2"])
+    # ---- a second failure: the recovery file written by the resumed run, loaded and resumed once more
+    b3 = None
+    if kind == "recovery" and case.get("fails2") and outcome2 != "ok":
+        case3 = {**case, "stage": 3}
+        if case.get("fresh"):
+            pr = subprocess.run([sys.executable, "-c", code], input=pickle.dumps(case3), capture_output=True, timeout=300)
+            if pr.returncode != 0:
+                raise RuntimeError("fresh interpreter failed: " + pr.stderr.decode()[-500:])
+            b3 = pickle.loads(pr.stdout)
+        else:
+            b3 = resume_from_file(case3)
     # ---- E: an uninterrupted run of a fresh graph (with the same new inputs), elsewhere
     nodes.reset()
     cwd = os.getcwd()
@@ -610,7 +699,8 @@ def run_impl(case):
         "loaded": loaded, "loaded_root": loaded_root, "final": final, "levels": res_levels,
         "wiring1": wiring1, "wiring2": wiring2, "trace1": trace1, "trace2": trace2,
         "calls1": calls1, "calls2": calls2, "clean": clean, "clean_outcome": clean_outcome,
-        "out2": out2, "fresh": bool(case.get("fresh")),
+        "out2": out2, "fresh": bool(case.get("fresh")), "final_root": b["final_root"], "files2": b["files_after"],
+        "stage3": b3,
     }
     done_before = [g for g in leaves_of(case) if loaded[g]["flags"] == "-" and loaded[g]["out"] != "ND"]
     inflight = any(v["flags"] == "R" and not v["comp"] for v in loaded.values())
@@ -620,6 +710,10 @@ def run_impl(case):
         "inflight_at_cut": int(inflight), "dirty": int(bool(case.get("dirty"))),
         f"resume:{outcome2.split(':')[0]}": 1, "stale_received_in_file": int(any(v["recv"] for v in loaded.values())),
         "calls_in_resume": len(calls2), "fresh_interpreter": int(bool(case.get("fresh"))),
+        "second_failure": int(b3 is not None), "cloudpickle_only_output": int(bool(case.get("cp"))),
+        "several_checkpoints": int(bool(case.get("ckpt_more"))),
+        "interrupt": int("kbd" in (case.get("kinds") or {}).values() or "kbd" in (case.get("kinds2") or {}).values()),
+        "two_suffixes_seen": int(any(f.endswith(".cpckl") for f in cut["files"] + b["files_after"])),
     }
     return {"obs": obs_lines(case, r), "r": r, "stats": stats}
 
@@ -633,7 +727,7 @@ def _fmt_nats(l):
 
 def obs_lines(case, r):
     lvs = levels_of(case)
-    lines = ["files " + " ".join(os.path.splitext(f)[0] for f in r["files"])]
+    lines = ["files " + " ".join(r["files"])]
     for lv in lvs:
         tag = f"L{lv['lid']}"
         own = lv["own"]
@@ -668,6 +762,36 @@ def obs_lines(case, r):
             f"{tag} res st " + " ".join(f"{g}:{st(g)}" for g in own),
             f"{tag} res fcalls " + " ".join(f"{g}:{r['calls2'].count(g)}" for g in leaves),
             f"{tag} res out " + " ".join(f"{g}:{r['out2'][g]}" for g in own),
+        ]
+    b3 = r.get("stage3")
+    if b3 is not None:
+        lv = lvs[-1]
+        own = lv["own"]
+        lines.append("H files " + " ".join(r["files2"]))
+        if "load_err" in b3:
+            lines.append("H load-failed")
+            return lines
+        res = b3["levels"][lv["lid"]]
+        o3 = b3["outcome2"]
+        end = "exited" if o3 in ("ok", "failedchild") else ("aborted" if o3.startswith("aborted") else o3)
+        outcome = {"ok": "ok", "failedchild": "failedchild"}.get(o3, "aborted" if o3.startswith("aborted") else o3)
+
+        def st3(g):
+            fl = b3["final"][g]["flags"]
+            return "out" if fl == "R" else ("failed" if fl == "F" else ("done" if g in res["done"] else "idle"))
+
+        lines += [
+            "H cut flags " + " ".join(f"{g}:{b3['loaded'][g]['flags']}" for g in own),
+            "H cut out " + " ".join(f"{g}:{b3['loaded'][g]['out']}" for g in own),
+            "H cut cache " + " ".join(f"{g}:{b3['loaded'][g]['cache']}" for g in own),
+            "H cut recv " + " ".join(f"{g}:{_fmt_nats(b3['loaded'][g]['recv'])}" for g in own),
+            f"H res end {end}",
+            f"H res outcome {outcome}",
+            f"H res exec {_fmt_nats(res['exec'])}",
+            f"H res done {_fmt_nats(res['done'])}",
+            "H res st " + " ".join(f"{g}:{st3(g)}" for g in own),
+            "H res fcalls " + " ".join(f"{g}:{b3['calls2'].count(g)}" for g in own),
+            "H res out " + " ".join(f"{g}:{b3['out2'][g]}" for g in own),
         ]
     return lines
 
@@ -707,6 +831,15 @@ def model_input(case, impl):
             lines.append("sched " + " ".join(r["trace1"]))
             lines.append("sched2 " + " ".join(r["trace2"]))
         lines.append("fails " + " ".join(str(k) for k in case.get("fails", []) if k in lv["own"]))
+        kinds = case.get("kinds") or {}
+        lines.append("kbd " + " ".join(str(k) for k in case.get("fails", []) if k in lv["own"] and kinds.get(str(k)) == "kbd"))
+        b3 = r.get("stage3")
+        if lv["lid"] == root_lid and b3 is not None and "wiring2" in b3:
+            w3 = b3["wiring2"][lv["lid"]]
+            for g in lv["own"]:
+                lines.append(f"down3 {g} " + " ".join(map(str, w3["down"].get(g, []))))
+            lines.append("starters3 " + " ".join(map(str, w3["starters"])))
+            lines.append("sched3 " + " ".join(b3["trace2"]))
         for g, lid2 in lv["macros"].items():
             lines.append(f"macro {g} {lid2}")
         for u, k in lv["ui"].items():
@@ -718,6 +851,11 @@ def model_input(case, impl):
         lines.append("rank " + " ".join(map(str, _rank(lv, n))))
         lines.append("endlevel")
     lines.append("dirty " + " ".join(map(str, case.get("dirty", []))))
+    lines.append("cp " + " ".join(map(str, case.get("cp", []))))
+    lines.append("ckptmore " + " ".join(map(str, case.get("ckpt_more", []))))
+    kinds2 = case.get("kinds2") or {}
+    lines.append("fails2 " + " ".join(map(str, case.get("fails2", []))))
+    lines.append("kbd2 " + " ".join(str(k) for k in case.get("fails2", []) if kinds2.get(str(k)) == "kbd"))
     if case["kind"] == "checkpoint":
         c = case["ckpt"]
         lid = next(lv["lid"] for lv in lvs if c in lv["own"])
@@ -799,12 +937,25 @@ def oracle(case, impl):
     loaded, live = r["loaded"], r["live"]
     inflight = any(v["flags"] == "R" and not v["comp"] for v in loaded.values())
     # (a) the file: one, at the root, nowhere else
-    expect = ["w/recovery.pckl"] if kind == "recovery" else ["w/picklestorage.pckl"]
-    if kind == "recovery" and r["outcome1"] == "ok":
-        expect = []
-    if r["files"] != expect:
-        fails.append({"clause": "file-not-exactly-at-root", "detail": f"files {r['files']} expected {expect}",
-                      "signature": sig("files")})
+    name = "w/recovery" if kind == "recovery" else "w/picklestorage"
+    interrupt = "kbd" in (case.get("kinds") or {}).values()
+
+    def one_file(files):
+        return len(files) == 1 and files[0] in (name + ".pckl", name + ".cpckl")
+
+    nothing_failed = kind == "recovery" and r["outcome1"] == "ok"
+    if (r["files"] != []) if nothing_failed else not one_file(r["files"]):
+        fails.append({"clause": "file-not-exactly-at-root",
+                      "detail": f"files {r['files']} expected exactly one of {name}.pckl / {name}.cpckl",
+                      "signature": sig("files", interrupt=interrupt)})
+    # the failed run leaves consistent flags: the root (and every node whose function raised) failed, not running
+    if kind == "recovery" and not nothing_failed and "live_root" in r:
+        raised = [g for g in case.get("fails", []) if g in r["calls1"]]
+        badflags = [g for g in raised if r["live"][g]["flags"] != "F"]
+        if r["live_root"] != (False, True) or badflags:
+            fails.append({"clause": "flags-after-failure",
+                          "detail": f"root (running, failed) = {r['live_root']}; raising nodes not marked failed: {badflags}",
+                          "signature": sig("flags", interrupt=interrupt)})
     if kind == "recovery" and r["outcome1"] == "ok":
         return fails  # nothing failed: nothing to resume
     # (a') the file holds the graph as it stood at the cut
@@ -821,13 +972,14 @@ def oracle(case, impl):
         fails.append({"clause": "loaded-state-differs", "detail": f"root flags {r['live_root']} vs {r['loaded_root']}",
                       "signature": sig("loaded-state", field="root")})
     # (b) same end as an uninterrupted run
-    if r["outcome2"] != "ok" or r["late2"]:
+    second = bool(case.get("fails2"))
+    if (r["outcome2"] != "ok" or r["late2"]) and not second:
         fails.append({"clause": "resumed-run-fails", "detail": f"{r['outcome2']} late jobs {r['late2']}",
                       "signature": sig("resume-outcome", inflight=inflight)})
     ref = reference(case)
     if r["clean_outcome"] != "ok":
         fails.append({"clause": "harness-clean-run", "detail": r["clean_outcome"], "signature": sig("harness")})
-    bad = [g for g in r["clean"] if r["out2"][g] != r["clean"][g]]
+    bad = [] if second else [g for g in r["clean"] if r["out2"][g] != r["clean"][g]]
     if bad:
         g = bad[0]
         fails.append({"clause": "resumed-outputs-differ",
@@ -858,6 +1010,42 @@ def oracle(case, impl):
     twice = sorted({g for g in r["calls2"] if r["calls2"].count(g) > 1})
     if twice:
         fails.append({"clause": "node-called-twice-in-resume", "detail": f"{twice}", "signature": sig("twice")})
+    # the same once more when the resumed run failed again: the file holds the graph as it stood at THAT failure
+    b3 = r.get("stage3")
+    if b3 is not None:
+        if not one_file(r["files2"]):
+            fails.append({"clause": "file-not-exactly-at-root",
+                          "detail": f"after the second failure: files {r['files2']}", "signature": sig("files", stage=2)})
+        if "load_err" in b3:
+            fails.append({"clause": "file-does-not-load", "detail": f"second recovery file: {b3['load_err']}",
+                          "signature": sig("load", stage=2)})
+            return fails
+        for g, v in r["final"].items():
+            w = b3["loaded"][g]
+            for key in ("flags", "out", "recv", "conn") + (() if v["comp"] or v["flags"] == "R" else ("cache", "cache_val")):
+                if v[key] != w[key]:
+                    fails.append({"clause": "loaded-state-differs",
+                                  "detail": f"second failure, node {g} {key}: live {v[key]} loaded {w[key]}",
+                                  "signature": sig("loaded-state", field=key, stage=2)})
+                    break
+        if r["final_root"] != b3["loaded_root"]:
+            fails.append({"clause": "loaded-state-differs", "detail": f"second failure, root flags {r['final_root']} vs {b3['loaded_root']}",
+                          "signature": sig("loaded-state", field="root", stage=2)})
+        if b3["outcome2"] != "ok" or b3["late2"]:
+            fails.append({"clause": "resumed-run-fails", "detail": f"after the second failure: {b3['outcome2']}",
+                          "signature": sig("resume-outcome", stage=2)})
+        bad3 = [g for g in r["clean"] if b3["out2"][g] != r["clean"][g]]
+        if bad3:
+            g = bad3[0]
+            fails.append({"clause": "resumed-outputs-differ",
+                          "detail": f"after the second failure, node {g}: resumed {b3['out2'][g]} uninterrupted {r['clean'][g]}",
+                          "signature": sig("outputs", stage=2)})
+        done2 = [g for g in leaves_of(case) if r["final"][g]["flags"] == "-" and r["final"][g]["out"] != "ND"]
+        again3 = [g for g in done2 if g in b3["calls2"]]
+        if again3:
+            fails.append({"clause": "completed-node-called-again",
+                          "detail": f"after the second failure: nodes {again3}; calls {b3['calls2']}",
+                          "signature": sig("recall", stage=2)})
     return fails
 
 
@@ -974,8 +1162,28 @@ def gen_case(rng, tier, force_kind=None, nested=None):
         # in-flight children at a checkpoint: flat graphs only (nested levels are run one after the other by the model)
         case["exec"] = [] if is_nested else sorted(g for g in top_leaves if g != case["ckpt"] and rng.random() < 0.55)
     case["exec2"] = list(case["exec"]) if rng.random() < 0.7 else []
+    # what a failing function raises: an ordinary exception (two classes) or an interrupt
+    def pick_kind():
+        x = rng.random()
+        return "exc" if x < 0.5 else ("value" if x < 0.7 else "kbd")
+
+    case["kinds"] = {str(g): pick_kind() for g in case["fails"]}
+    # a leaf whose output only cloudpickle can serialise: the suffix of the file changes once it has run
+    case["cp"] = [rng.choice(leaves)] if rng.random() < 0.3 else []
+    # several checkpointing nodes in one run (flat graphs): the cut is the save of `ckpt`, others saved before
+    case["ckpt_more"] = []
+    if kind == "checkpoint" and not is_nested and rng.random() < 0.45:
+        others = [g for g in top_leaves if g != case["ckpt"]]
+        case["ckpt_more"] = sorted(rng.sample(others, min(len(others), rng.randint(1, 2))))
+    # the resumed run fails again (flat graphs): second recovery file, second resume
+    case["fails2"], case["kinds2"] = [], {}
+    if kind == "recovery" and not is_nested and rng.random() < 0.5:
+        rest = [g for g in leaves if g not in case["fails"]]
+        if rest:
+            case["fails2"] = [rng.choice(rest)]
+            case["kinds2"] = {str(case["fails2"][0]): pick_kind()}
     case["dirty"] = []
-    if rng.random() < 0.35:
+    if not case["fails2"] and rng.random() < 0.35:
         lvs = levels_of(case)
         vl = {(g, si) for lv in lvs for (g, si, _k) in lv["vlink"]}
         cand = []
@@ -986,10 +1194,17 @@ def gen_case(rng, tier, force_kind=None, nested=None):
                     cand.append(nd["gid"])
         if cand:
             case["dirty"] = [rng.choice(cand)]
+    if case["dirty"] and is_nested:
+        # the model treats a macro as a function of ALL its inputs; with new input values that is only exact when
+        # every connected macro input really reaches the macro's output
+        ref = reference(case)
+        if not all(a in ref[k[1]] for k, args in ref.items() if isinstance(k, tuple) for a in args):
+            case["dirty"] = []
     n = len(leaves)
     lazy = rng.random() < 0.5  # executor jobs complete as late as possible: more in flight at a checkpoint
     case["choices"] = [0 if lazy and rng.random() < 0.85 else rng.randint(0, 3) for _ in range(4 * n)]
     case["choices2"] = [rng.randint(0, 3) for _ in range(4 * n)]
+    case["choices3"] = [rng.randint(0, 3) for _ in range(4 * n)]
     return case
 
 
@@ -1005,8 +1220,10 @@ def gen_cases(rng, tier):
         for _ in range(60):
             base = gen_case(rng, "quick", nested=rng.random() < 0.5)
             for g in leaves_of(base):
-                yield {**base, "kind": "recovery", "fails": [g], "ckpt": None, "dirty": []}
-                yield {**base, "kind": "checkpoint", "fails": [], "ckpt": g, "dirty": [],
+                yield {**base, "kind": "recovery", "fails": [g], "ckpt": None, "dirty": [], "fails2": [], "kinds2": {},
+                       "kinds": {str(g): rng.choice(["exc", "kbd"])}, "ckpt_more": []}
+                yield {**base, "kind": "checkpoint", "fails": [], "ckpt": g, "dirty": [], "fails2": [], "kinds2": {},
+                       "kinds": {}, "ckpt_more": [],
                        "exec": [] if len(levels_of(base)) > 1 else base["exec"]}
     yield {"kind": "malformed", "lines": ["n x", "level", "slot 0 a", "cut somewhere", "endlevel", "run 1", "cfg 1 1 1 1 1 1"]}
 
@@ -1030,6 +1247,15 @@ def corpus():
     # the non-vacuity example of Props/C08.lean: diamond + side branch, 1 on an executor, 2 raises
     yield _flat(5, [[[], [], []], [[0], [], []], [[0], [], []], [[1, 2], [1], []], [[0], [], []]], kind="recovery",
                 fails=[2], exec=[1], exec2=[1], choices=[0, 0, 0, 0, 0, 0], choices2=[])
+    # the graph becomes cloudpickle-only between two failures: 0 -> 1 (closure output) -> 2 -> 3; 1 raises, resume, 3 raises
+    chain = [[[], [], []], [[0], [], []], [[1], [], []], [[2], [], []]]
+    yield _flat(4, chain, kind="recovery", fails=[1], cp=[1], fails2=[3], kinds={"1": "exc"}, kinds2={"3": "value"})
+    # three checkpointing nodes around a closure-producing node: the file of the last save is what loads
+    yield _flat(4, chain, kind="checkpoint", ckpt=3, ckpt_more=[0, 2], cp=[1])
+    # an interrupt instead of an exception: locally, on an executor, inside a macro
+    yield _flat(3, [[[], [], []], [[0], [], []], [[1], [], []]], kind="recovery", fails=[1], kinds={"1": "kbd"})
+    yield _flat(3, [[[], [], []], [[0], [], []], [[1], [], []]], kind="recovery", fails=[1], kinds={"1": "kbd"}, exec=[1],
+                exec2=[1])
     # failure two macros deep; a sibling leaf completes, the outer macro's other child completes
     inner2 = {"nodes": [{"gid": 5, "kind": "term"}, {"gid": 6, "kind": "term"}],
               "slots": {"5": [["A"], ["B"], []], "6": [[5], ["B"], []]}, "ui": {"A": 12, "B": 13}, "out": 6}
@@ -1040,6 +1266,7 @@ def corpus():
            "slots": {"0": [[], [], []], "1": [[0], [], []], "7": [[0], [1]], "2": [[7], [1], []]}}
     base = {"top": top, "N": 14, "exec": [], "exec2": [], "dirty": [], "mode": "ctl", "choices": [], "choices2": []}
     yield {**base, "kind": "recovery", "fails": [6]}
+    yield {**base, "kind": "recovery", "fails": [6], "kinds": {"6": "kbd"}}
     yield {**base, "kind": "checkpoint", "fails": [], "ckpt": 5}
     yield {**base, "kind": "recovery", "fails": [2], "dirty": [5]}
 
@@ -1049,6 +1276,14 @@ def shrink_candidates(case):
         return
     if case.get("dirty"):
         yield {**case, "dirty": []}
+    if case.get("fails2"):
+        yield {**case, "fails2": [], "kinds2": {}}
+    if case.get("ckpt_more"):
+        yield {**case, "ckpt_more": []}
+    if case.get("cp"):
+        yield {**case, "cp": []}
+    if any(v != "exc" for v in (case.get("kinds") or {}).values()):
+        yield {**case, "kinds": {k: "exc" for k in case["kinds"]}}
     for g in case.get("exec", []):
         yield {**case, "exec": [e for e in case["exec"] if e != g], "exec2": [e for e in case.get("exec2", []) if e != g]}
     if case.get("exec2"):
